@@ -25,6 +25,8 @@ import (
 
 const origin = "o.example"
 
+var errAny = errors.New("any error")
+
 // ---- universe ----
 
 type svc struct {
@@ -211,6 +213,9 @@ func build(u universe) (*zone, expectation) {
 		z.data[zkey(qname, 65)] = dohmem.Answer{RCode: h.RCode}
 		if h.RCode != 3 {
 			httpsErr = rcodeErr[h.RCode]
+			if httpsErr == nil {
+				httpsErr = errAny // a failure code without a named error: any error will do, success will not
+			}
 		}
 	case "service":
 		setSvc(qname)
@@ -434,7 +439,7 @@ func evalUniverse(r *ev.Run, u universe, srv *dohmem.Server, host string) {
 		oc = "error"
 		okErr := exp.mayFail
 		for _, e := range exp.errIs {
-			if errors.Is(err, e) {
+			if errors.Is(err, e) || e == errAny {
 				okErr = true
 			}
 		}
@@ -513,7 +518,7 @@ func Run(r *ev.Run) {
 	}
 	var hs []httpsSpec
 	hs = append(hs, httpsSpec{Kind: "none"})
-	for _, rc := range []int{1, 2, 3, 4, 5} {
+	for _, rc := range []int{1, 2, 3, 4, 5, 9, 16, 19, 23} { // 16, 19, 23: extended codes (upper bits in the OPT record); 19 has low nibble 3
 		hs = append(hs, httpsSpec{Kind: "rcode", RCode: rc})
 	}
 	for _, s := range svcSets {
@@ -613,7 +618,7 @@ func hostile(r *ev.Run, srv *dohmem.Server) {
 		s := strings.Repeat("s", n)
 		inputs = append(inputs, s+"://"+origin, s+"://"+origin+":123", s+"://"+origin+":443")
 	}
-	inputs = append(inputs, "", ".", "..", "a..b", ":", ":443", "://", "https://", "https://:443", "o.example:99999", "o.example:0", "o.example:-1", "[::1", "o.example:443:443", "https://o.example:port/", "\x00", "o\x00.example", strings.Repeat(".", 300))
+	inputs = append(inputs, "o.example..", "o.example..:8443", "https://o.example../x", "o.example...", ".o.example", "", ".", "..", "a..b", ":", ":443", "://", "https://", "https://:443", "o.example:99999", "o.example:0", "o.example:-1", "[::1", "o.example:443:443", "https://o.example:port/", "\x00", "o\x00.example", strings.Repeat(".", 300))
 	for _, in := range inputs {
 		srv.Reset()
 		res, _ := ech.NewResolver("https://doh.test/dns-query")
